@@ -1,6 +1,7 @@
 package main
 
 import (
+	"go/token"
 	"os"
 	"strings"
 
@@ -360,4 +361,80 @@ func helperBoolFacts(a Atom, depth int) []Atom {
 		}
 	}
 	return common
+}
+
+// cancelBeforeDrain: in a loop function that owns a context (ctx, cancel := context.WithCancel/WithTimeout(...)),
+// every bare receive (result unused, outside any select) that drains a worker channel after the loop is dominated by
+// a direct call of that cancel function. A worker that only returns when its context ends is otherwise waited for
+// forever (a deferred cancel runs after the drain). Shared by the provider loop checks (C12, C13, C14, C20).
+func (c *Check) cancelBeforeDrain(rule string, fn *ssa.Function) {
+	var cancels []ssa.Value
+	eachInstr(fn, func(i ssa.Instruction) {
+		if ex, ok := i.(*ssa.Extract); ok && ex.Index == 1 {
+			if cv, isC := ex.Tuple.(*ssa.Call); isC {
+				if full := calleeFull(cv); full == "context.WithCancel" || full == "context.WithTimeout" || full == "context.WithDeadline" {
+					cancels = append(cancels, ex)
+				}
+			}
+		}
+	})
+	if len(cancels) == 0 {
+		c.Info(rule, fnName(fn)+" owns no cancellable context", fn.Pos(), "")
+		return
+	}
+	isCancel := func(v ssa.Value) bool {
+		for _, cv := range cancels {
+			if v == cv {
+				return true
+			}
+		}
+		// the cancel function kept in a local (possibly assigned on several branches)
+		if ld, ok := v.(*ssa.UnOp); ok {
+			if a, isA := ld.X.(*ssa.Alloc); isA && a.Referrers() != nil {
+				for _, r := range *a.Referrers() {
+					if st, isSt := r.(*ssa.Store); isSt && st.Addr == ssa.Value(a) {
+						for _, cv := range cancels {
+							if st.Val == cv {
+								return true
+							}
+						}
+					}
+				}
+			}
+		}
+		if ph, ok := v.(*ssa.Phi); ok {
+			for _, e := range ph.Edges {
+				for _, cv := range cancels {
+					if e == cv {
+						return true
+					}
+				}
+			}
+		}
+		return false
+	}
+	var direct []ssa.Instruction
+	eachInstr(fn, func(i ssa.Instruction) {
+		if cv, ok := i.(*ssa.Call); ok && cv.Call.StaticCallee() == nil && !cv.Call.IsInvoke() && isCancel(cv.Call.Value) {
+			direct = append(direct, cv)
+		}
+	})
+	n := 0
+	eachInstr(fn, func(i ssa.Instruction) {
+		u, ok := i.(*ssa.UnOp)
+		if !ok || u.Op != token.ARROW || (u.Referrers() != nil && len(*u.Referrers()) > 0) {
+			return
+		}
+		n++
+		dom := false
+		for _, d := range direct {
+			if instrDominates(d, u) {
+				dom = true
+			}
+		}
+		c.Ob(rule, fnName(fn)+": bare drain #"+itoa(n)+" comes after the context was cancelled", u.Pos(), dom, "a worker is waited for while its context is still live (cancel is not called, or only deferred): if the worker returns only on cancellation the function never finishes")
+	})
+	if n == 0 {
+		c.Info(rule, fnName(fn)+" has no bare drains", fn.Pos(), "")
+	}
 }
